@@ -210,18 +210,20 @@ Ltac lists :=
 
 Lemma n32_0 : n32 0 = 0. Proof. reflexivity. Qed.
 
-Ltac pstep := first
- [ erewrite pbind_ok by apply p_u32_enc
- | erewrite pbind_ok by apply p_u64_enc
- | erewrite pbind_ok by apply p_bool_enc
- | erewrite pbind_ok by apply p_time_enc
- | erewrite pbind_ok by (apply p_post_op_attr_enc; assumption)
- | erewrite pbind_ok by (apply p_wcc_data_enc; assumption)
- | erewrite pbind_ok by (apply p_fh3_enc; assumption)
- | erewrite pbind_ok by (apply p_post_op_fh3_enc; assumption)
- | erewrite pbind_ok by (apply p_fattr3_enc; assumption)
- | erewrite pbind_ok by (apply p_fixed_enc; apply N.eqb_eq; assumption)
- ]; cbv beta iota.
+Ltac pstep :=
+  lazymatch goal with
+  | |- pbind p_u32 _ _ = _ => erewrite pbind_ok by apply p_u32_enc
+  | |- pbind p_u64 _ _ = _ => erewrite pbind_ok by apply p_u64_enc
+  | |- pbind p_bool _ (e_bool _ ++ _) = _ => erewrite pbind_ok by apply p_bool_enc
+  | |- pbind p_time _ (e_time _ ++ _) = _ => erewrite pbind_ok by apply p_time_enc
+  | |- pbind p_post_op_attr _ _ = _ => erewrite pbind_ok by (apply p_post_op_attr_enc; assumption)
+  | |- pbind p_wcc_data _ _ = _ => erewrite pbind_ok by (apply p_wcc_data_enc; assumption)
+  | |- pbind p_fh3 _ _ = _ => erewrite pbind_ok by (apply p_fh3_enc; assumption)
+  | |- pbind (p_opaque NFS3_FHSIZE) _ _ = _ => erewrite pbind_ok by (apply p_fh3_enc; assumption)
+  | |- pbind p_post_op_fh3 _ _ = _ => erewrite pbind_ok by (apply p_post_op_fh3_enc; assumption)
+  | |- pbind p_fattr3 _ _ = _ => erewrite pbind_ok by (apply p_fattr3_enc; assumption)
+  | |- pbind (p_fixed _) _ _ = _ => erewrite pbind_ok by (apply p_fixed_enc; apply N.eqb_eq; assumption)
+  end; cbv beta iota.
 
 Lemma p_fail_enc f t st rest : pf_check (pf_fail f) t = true ->
   p_fail f st (e_fail f t ++ rest) =
@@ -263,18 +265,21 @@ Lemma u32max_two32 n : (n <=? U32MAX) = true -> n < two32.
 Proof. unfold U32MAX, two32. intros H. apply N.leb_le in H. lia. Qed.
 Definition mark (p : rproc) : Prop := True.
 
-Ltac pstep2 := first
- [ pstep
- | erewrite pbind_ok by apply p_time_enc2
- | erewrite pbind_ok by (apply p_name_enc; apply N.leb_le; assumption)
- | erewrite pbind_ok by (apply p_opaque_enc; [apply N.leb_le; assumption|apply u32max_two32; assumption])
- | erewrite pbind_ok by (apply p_bool_num; assumption)
- | erewrite pbind_ok by (apply (p_chain_enc p_entry3 e_entry3 norm_entry (fun e => ent_plain e && name_ok e));
-                          [intros; apply p_entry3_enc; assumption | apply forallb_and; assumption | assumption])
- | erewrite pbind_ok by (apply (p_chain_enc p_entryplus3 e_entryplus3 norm_entry (fun e => ent_plus e && name_ok e));
-                          [intros; apply p_entryplus3_enc; assumption | apply forallb_and; assumption | assumption])
- ]; cbv beta iota.
-
+Ltac pstep2 :=
+  lazymatch goal with
+  | |- pbind p_time _ (e_u32 _ ++ _) = _ => erewrite pbind_ok by apply p_time_enc2; cbv beta iota
+  | |- pbind p_name _ _ = _ => erewrite pbind_ok by (apply p_name_enc; apply N.leb_le; assumption); cbv beta iota
+  | |- pbind (p_opaque U32MAX) _ _ = _ =>
+      erewrite pbind_ok by (apply p_opaque_enc; [apply N.leb_le; assumption|apply u32max_two32; assumption]); cbv beta iota
+  | |- pbind p_bool _ (e_u32 _ ++ _) = _ => erewrite pbind_ok by (apply p_bool_num; assumption); cbv beta iota
+  | |- pbind (p_chain _ p_entry3) _ _ = _ =>
+      erewrite pbind_ok by (apply (p_chain_enc p_entry3 e_entry3 norm_entry (fun e => ent_plain e && name_ok e));
+                            [intros; apply p_entry3_enc; assumption | apply forallb_and; assumption | assumption]); cbv beta iota
+  | |- pbind (p_chain _ p_entryplus3) _ _ = _ =>
+      erewrite pbind_ok by (apply (p_chain_enc p_entryplus3 e_entryplus3 norm_entry (fun e => ent_plus e && name_ok e));
+                            [intros; apply p_entryplus3_enc; assumption | apply forallb_and; assumption | assumption]); cbv beta iota
+  | |- _ => pstep
+  end.
 
 Lemma len_concat_u32 l : len (concat (map e_u32 l)) = 4 * len l.
 Proof.
